@@ -487,3 +487,52 @@ M("c16-extensible-not-forwarded", "C16", [(ESS, 'Numeral(n_min=min_decimal, n_ma
 M("c16-min-decimal-zero-ok", "C16", [(ESS, "        elif min_decimal < 1:", "        elif min_decimal < 0:")], rule="R-ARGS")
 M("c16-integer-args-swapped", "C16", [(ESS, "integer_part = UnsignedInteger(start, end, is_extensible)", "integer_part = UnsignedInteger(end, start, is_extensible)")])
 M("c16-benign-keyword-args", "C16", [(ESS, "integer_part = UnsignedInteger(start, end, is_extensible)", "integer_part = UnsignedInteger(start=start, end=end, is_extensible=is_extensible)")], expect="silent")
+
+# ---------------------------------------------------------------- C06
+M("c06-letter-typo-A-z", "C06", [(CLS, "super().__init__('[^a-zA-Z]', is_negated=True)", "super().__init__('[^a-zA-z]', is_negated=True)")], rule="R-CLASSCONST")
+M("c06-anybutdigit-flag", "C06", [(CLS, "super().__init__('[^0-9]', is_negated=True)", "super().__init__('[^0-9]', is_negated=False)")], rule="R-CLASSCONST")
+M("c06-twin-edited-alone", "C06", [(CLS, "super().__init__('[^\\u4e00-\\u9fd5]', is_negated=True)", "super().__init__('[^\\u4e00-\\u9fff]', is_negated=True)")], rule="R-CLASSCONST")
+M("c06-punctuation-gap", "C06", [(CLS, "super().__init__('[!-\\/:-@\\[-`{-~]', is_negated=False)", "super().__init__('[!-\\/:-@\\[-_{-~]', is_negated=False)")], rule="R-CLASSCONST")
+M("c06-dollar-unescaped", "C06", [(TOK, 'super().__init__("\\\\\\u0024")', 'super().__init__("\\u0024")')])
+M("c06-euro-wrong-codepoint", "C06", [(TOK, 'super().__init__("\\u20ac")', 'super().__init__("\\u20ad")')], rule="R-TOKENS")
+M("c06-to-escape-minus-bracket", "C06", [(CLS, "_to_escape = ('\\\\', '^', '[', ']', '-', '/', '$')", "_to_escape = ('\\\\', '^', '[', '-', '/', '$')")])
+M("c06-to-escape-minus-dollar", "C06", [(CLS, "_to_escape = ('\\\\', '^', '[', ']', '-', '/', '$')", "_to_escape = ('\\\\', '^', '[', ']', '-', '/')")])
+M("c06-range-pattern-minus-dash", "C06", [(CLS, 'r"(?:\\\\(?:\\[|\\]|\\^|\\$|\\-|\\/|[a-z]|\\\\)|[^\\[\\]\\^\\$\\-\\/\\\\])" + \\', 'r"(?:\\\\(?:\\[|\\]|\\^|\\$|\\/|[a-z]|\\\\)|[^\\[\\]\\^\\$\\-\\/\\\\])" + \\')])
+M("c06-anybutfrom-no-escape", "C06", [(CLS, """        chars = tuple((f"\\{c}" if c in __class__._to_escape else c)
+            if isinstance(c, str) else str(c) for c in chars)""", """        chars = tuple(c
+            if isinstance(c, str) else str(c) for c in chars)""")])
+M("c06-anybetween-end-unescaped", "C06", [(CLS, """        end = f"\\\\{end}" if end in __class__._to_escape else end
+        super().__init__(f"[{start}-{end}]", is_negated=False)""", """        super().__init__(f"[{start}-{end}]", is_negated=False)""")], rule="R-ROUNDTRIP")
+M("c06-anybutbetween-not-negated", "C06", [(CLS, 'super().__init__(f"[^{start}-{end}]", is_negated=True)', 'super().__init__(f"[{start}-{end}]", is_negated=True)')])
+M("c06-range-check-weak", "C06", [(CLS, """        if ord(start) >= ord(end):
+            raise _ex.InvalidRangeException(start, end)
+        start = f"\\\\{start}" if start in __class__._to_escape else start
+        end = f"\\\\{end}" if end in __class__._to_escape else end
+        super().__init__(f"[{start}-{end}]", is_negated=False)""", """        if ord(start) > ord(end):
+            raise _ex.InvalidRangeException(start, end)
+        start = f"\\\\{start}" if start in __class__._to_escape else start
+        end = f"\\\\{end}" if end in __class__._to_escape else end
+        super().__init__(f"[{start}-{end}]", is_negated=False)""")], rule="R-ARGS")
+M("c06-anyfrom-accepts-no-args", "C06", [(CLS, """        if len(chars) == 0:
+            message = f"No characters were provided to \\"{__class__.__name__}\\"."
+            raise _ex.NotEnoughArgumentsException(message)
+        for c in chars:
+            if isinstance(c, (str, _pre.Pregex)):
+                if len(str(c).replace("\\\\", "", 1) if isinstance(c, _pre.Pregex) else c) > 1: 
+                    message = f"Argument \\"{c}\\" is neither a string nor a token."
+                    raise _ex.InvalidArgumentTypeException(message)
+            else:
+                message = f"Argument \\"{c}\\" is neither a string nor a token."
+                raise _ex.InvalidArgumentTypeException(message)
+        chars = tuple((f"\\\\{c}" if""", """        for c in chars:
+            if isinstance(c, (str, _pre.Pregex)):
+                if len(str(c).replace("\\\\", "", 1) if isinstance(c, _pre.Pregex) else c) > 1: 
+                    message = f"Argument \\"{c}\\" is neither a string nor a token."
+                    raise _ex.InvalidArgumentTypeException(message)
+            else:
+                message = f"Argument \\"{c}\\" is neither a string nor a token."
+                raise _ex.InvalidArgumentTypeException(message)
+        chars = tuple((f"\\\\{c}" if""")], rule="R-ARGS")
+M("c06-benign-respelled-constant", "C06", [(CLS, "super().__init__('[a-zA-Z]', is_negated=False)", "super().__init__('[A-Za-z]', is_negated=False)"),
+                                          (CLS, "super().__init__('[^a-zA-Z]', is_negated=True)", "super().__init__('[^\\u0041-\\u005aa-z]', is_negated=True)")], expect="silent")
+M("c06-benign-escape-more", "C06", [(CLS, "_to_escape = ('\\\\', '^', '[', ']', '-', '/', '$')", "_to_escape = ('\\\\', '^', '[', ']', '-', '/', '$', '&')")], expect="fire")  # '&' is not readable after a backslash: R_esc >= W
